@@ -110,8 +110,13 @@ ObsMat(o) == Mat(LAMBDA r, c : Obs(o[r][c]))
 \* a generated pair of matrices for arbitrary primaries p (dyadic chromaticities)
 GenMatrixOK(e) ==
     LET pr == Chroma(e.p.r)  pg == Chroma(e.p.g)  pb == Chroma(e.p.b)  w == Chroma(e.p.w)
-        M == RGB2XYZ(pr, pg, pb, w, D40)
-        W == WhiteXYZ(w, D40)
+        \* the white's luminance YY = Q / 2^40 scales the whole matrix (the primaries' own
+        \* luminances cancel: only their chromaticities matter)
+        Q == AtScale(e.p.wyy, K40)
+        M1 == RGB2XYZ(pr, pg, pb, w, D40)
+        M == RatMat(Scale(M1.num, Q), IMul(M1.den, D40))
+        W1 == WhiteXYZ(w, D40)
+        W == [num |-> [r \in Idx |-> IMul(W1.num[r], Q)], den |-> IMul(W1.den, D40)]
         to == ObsMat(e.to)   from == ObsMat(e.from)
         Ninv == RInverse(M.num)          \* M^-1 = den adj(num) / det(num)
         \* condition number kappa = |M|inf |M^-1|inf = (normM / den) * (den normAdj / |det|) = normM normAdj / |det|
